@@ -146,6 +146,15 @@ def verify(code=None, filename=DEFAULT_STUDENT_FILENAME, report=MAIN_REPORT,
                      sys.exc_info(), report=report, muted=muted, enhance=enhance)
         report[TOOL_NAME]['success'] = False
         report[TOOL_NAME]['ast'] = ast.parse("")
+    except (RecursionError, MemoryError, ValueError) as e:
+        # The parser gave up on the text (nested too deeply, ...): that is
+        # also a rejection, reported as a syntax error on the first line.
+        rejection = SyntaxError(str(e) or "the code could not be parsed",
+                                (filename, 1, 1, ""))
+        syntax_error(1, filename, code, 1, rejection,
+                     sys.exc_info(), report=report, muted=muted, enhance=enhance)
+        report[TOOL_NAME]['success'] = False
+        report[TOOL_NAME]['ast'] = ast.parse("")
     else:
         report[TOOL_NAME]['success'] = True
     return report[TOOL_NAME]['success']
